@@ -442,6 +442,26 @@ def token_function(name, n_out, named=True):
     return function
 
 
+class Pipeline(list):
+    """
+    A callable object that is FALSY when empty (a list of post-processing
+    stages applied after `function`): callables need not be truthy.
+    """
+    def __init__(self, function, stages=()):
+        list.__init__(self, stages)
+        self.function = function
+        self.__name__ = getattr(function, "__name__", "pipeline")
+
+    def __call__(self, *xs):
+        out = self.function(*xs)
+        for stage in self:
+            out = stage(out)
+        return out
+
+    def __repr__(self):
+        return "Pipeline({})".format(self.__name__)
+
+
 class CatKit:
     """ Plain arrows of discopy.cat. """
     name = "cat"
